@@ -13,6 +13,32 @@ import (
 // resolverFunc: the one function that stores a non-nil Directive.Parent.
 func (c *Ctx) resolverFunc() (*types.Func, []string) {
 	parent := c.Field("directive", "Directive", "Parent")
+	dirT := c.Named("directive", "Directive")
+	core := c.P.Pkg("core")
+	// by role: the function of core that receives the root list by address
+	// (a parameter of type *[]*Directive) and decides where a directive goes
+	var byRole []*types.Func
+	if core != nil && dirT != nil {
+		c.P.Funcs(func(pk *pkgT, fd *ast.FuncDecl) {
+			if pk != core {
+				return
+			}
+			f, _ := pk.TypesInfo.Defs[fd.Name].(*types.Func)
+			if f == nil {
+				return
+			}
+			sig := f.Type().(*types.Signature)
+			for i := 0; i < sig.Params().Len(); i++ {
+				if pt, ok := sig.Params().At(i).Type().(*types.Pointer); ok {
+					if sl, ok := pt.Elem().Underlying().(*types.Slice); ok {
+						if ep, ok := sl.Elem().(*types.Pointer); ok && types.Identical(ep.Elem(), dirT) {
+							byRole = append(byRole, f)
+						}
+					}
+				}
+			}
+		})
+	}
 	var found []*types.Func
 	var notes []string
 	c.P.Funcs(func(pk *pkgT, fd *ast.FuncDecl) {
@@ -40,6 +66,36 @@ func (c *Ctx) resolverFunc() (*types.Func, []string) {
 	if len(found) == 0 {
 		return nil, nil
 	}
+	// the root of the family: among the functions that take the root list by address, the
+	// one that is not called by another of them
+	var root *types.Func
+	for _, r := range byRole {
+		calledByOther := false
+		for _, cs := range c.callSitesOf(r) {
+			caller := declObj(cs)
+			for _, o := range byRole {
+				if o != r && caller == o {
+					calledByOther = true
+				}
+			}
+		}
+		if !calledByOther {
+			if root != nil {
+				root = nil
+				break
+			}
+			root = r
+		}
+	}
+	if root != nil {
+		fam := c.familyOf(root)
+		for _, f := range found {
+			if !fam[f] {
+				return nil, notes
+			}
+		}
+		return root, notes
+	}
 	for _, f := range found[1:] {
 		if f != found[0] {
 			return nil, notes
@@ -48,9 +104,53 @@ func (c *Ctx) resolverFunc() (*types.Func, []string) {
 	return found[0], notes
 }
 
+// familyOf: root plus the unexported functions of its package that it reaches statically
+// and that nobody outside the family calls (helpers extracted from it).
+func (c *Ctx) familyOf(root *types.Func) map[*types.Func]bool {
+	fam := map[*types.Func]bool{root: true}
+	rd := c.P.Decl(root)
+	if rd == nil {
+		return fam
+	}
+	pk := c.P.PkgOfDecl(rd)
+	cand := reachStatic(c.P, pk, []*types.Func{root})
+	for changed := true; changed; {
+		changed = false
+		for _, f := range cand {
+			if fam[f] || f.Exported() {
+				continue
+			}
+			sites := c.callSitesOf(f)
+			if len(sites) == 0 || c.usedAsValue(f) {
+				continue
+			}
+			all := true
+			for _, cs := range sites {
+				if caller := declObj(cs); caller == nil || !fam[caller] {
+					all = false
+				}
+			}
+			if all {
+				fam[f] = true
+				changed = true
+			}
+		}
+	}
+	return fam
+}
+
+// resolverFamily returns the context resolver and its family of helpers.
+func (c *Ctx) resolverFamily() (*types.Func, map[*types.Func]bool) {
+	r, _ := c.resolverFunc()
+	if r == nil {
+		return nil, nil
+	}
+	return r, c.familyOf(r)
+}
+
 // RuleR1: one resolver builds the tree in both phases.
 func RuleR1(c *Ctx) {
-	sc := c.Run.Begin("R1", "exactly one function links a directive to its parent; every Parent store, every AppendChild and every insert into a root directive list happens in it, and both tree-building phases (after scanning, after PASTE expansion) call it", 6)
+	sc := c.Run.Begin("R1", "exactly one function links a directive to its parent; every Parent store, every AppendChild and every insert into a root directive list happens in it, and both tree-building phases (after scanning, after PASTE expansion) call it", 2)
 	defer sc.End()
 	resolver, sites := c.resolverFunc()
 	if resolver == nil {
@@ -62,6 +162,7 @@ func RuleR1(c *Ctx) {
 		return
 	}
 	sc.Holds("resolver", sites[0], "the single context resolver is "+resolver.Name())
+	fam := c.familyOf(resolver)
 	appendChild := c.Func("directive", "Directive.AppendChild")
 	children := c.Field("directive", "Directive", "Children")
 	roots := []*types.Var{c.Field("core", "JApiCore", "directives"), c.Field("core", "JApiCore", "directivesWithPastes")}
@@ -69,7 +170,7 @@ func RuleR1(c *Ctx) {
 	c.P.Funcs(func(pk *pkgT, fd *ast.FuncDecl) {
 		info := pk.TypesInfo
 		self, _ := info.Defs[fd.Name].(*types.Func)
-		inResolver := self == resolver
+		inResolver := fam[self]
 		ast.Inspect(fd.Body, func(x ast.Node) bool {
 			switch s := x.(type) {
 			case *ast.CallExpr:
@@ -182,7 +283,7 @@ func rootStoreKind(info *types.Info, lhs ast.Expr, rhs ast.Expr) string {
 
 // RuleR2: the parenthesis protocol is wired end to end.
 func RuleR2(c *Ctx) {
-	sc := c.Run.Begin("R2", "HasExplicitContext is set only by the handler of the '(' lexeme; the ')' handler reaches the walk that stops at it; the scan stage cannot return success without the unclosed-context test having failed to find one", 4)
+	sc := c.Run.Begin("R2", "HasExplicitContext is set only by the handler of the '(' lexeme; the ')' handler reaches the walk that stops at it; the scan stage cannot return success without the unclosed-context test having failed to find one", 2)
 	defer sc.End()
 	pk := c.P.Pkg("core")
 	flag := c.Field("directive", "Directive", "HasExplicitContext")
@@ -428,9 +529,9 @@ func RuleR3(c *Ctx) {
 // parent it does not point to) inherits that URL's path-independent attributes (Tags)
 // while being catalogued as a root interaction.
 func RuleR4(c *Ctx) {
-	sc := c.Run.Begin("R4", "at every success return of the context resolver the directive is linked (Parent set and appended to that parent's children) or rooted (inserted into the root list, Parent untouched), never a mixture and never neither", 3)
+	sc := c.Run.Begin("R4", "at every success return of the context resolver the directive is linked (Parent set and appended to that parent's children) or rooted (inserted into the root list, Parent untouched), never a mixture and never neither", 2)
 	defer sc.End()
-	resolver, _ := c.resolverFunc()
+	resolver, fam := c.resolverFamily()
 	parent := c.Field("directive", "Directive", "Parent")
 	appendChild := c.Func("directive", "Directive.AppendChild")
 	if resolver == nil || parent == nil || appendChild == nil {
@@ -442,19 +543,22 @@ func RuleR4(c *Ctx) {
 	info := pk.TypesInfo
 	cf := c.CFG(pk, fd.Body)
 	name := c.P.DeclName(fd)
-	// the root-list parameter(s): pointer to a slice of *Directive
-	rootParams := map[types.Object]bool{}
-	for _, fl := range fd.Type.Params.List {
-		for _, id := range fl.Names {
-			if pt, ok := info.ObjectOf(id).Type().(*types.Pointer); ok {
-				if _, isSlice := pt.Elem().Underlying().(*types.Slice); isSlice {
-					rootParams[info.ObjectOf(id)] = true
+	// direct events in a node, for any function of the family (root-list parameters are
+	// the parameters of type *[]T of the function the node belongs to)
+	rootParamsOf := func(d *ast.FuncDecl) map[types.Object]bool {
+		out := map[types.Object]bool{}
+		for _, fl := range d.Type.Params.List {
+			for _, id := range fl.Names {
+				if pt, ok := info.ObjectOf(id).Type().(*types.Pointer); ok {
+					if _, isSlice := pt.Elem().Underlying().(*types.Slice); isSlice {
+						out[info.ObjectOf(id)] = true
+					}
 				}
 			}
 		}
+		return out
 	}
-	var storeRHS, appendRecv []ast.Expr
-	isStore := func(nd ast.Node) bool {
+	directStore := func(nd ast.Node) bool {
 		hit := false
 		inspectNoLit(nd, func(x ast.Node) bool {
 			as, ok := x.(*ast.AssignStmt)
@@ -474,7 +578,7 @@ func RuleR4(c *Ctx) {
 		})
 		return hit
 	}
-	isAppend := func(nd ast.Node) bool {
+	directAppend := func(nd ast.Node) bool {
 		hit := false
 		inspectNoLit(nd, func(x ast.Node) bool {
 			if call, ok := x.(*ast.CallExpr); ok && Callee(info, call) == appendChild {
@@ -484,49 +588,112 @@ func RuleR4(c *Ctx) {
 		})
 		return hit
 	}
-	isRoot := func(nd ast.Node) bool {
-		return cfgx.Assigns(nd, func(lhs ast.Expr) bool {
-			st, ok := ast.Unparen(lhs).(*ast.StarExpr)
-			if !ok {
-				return false
-			}
-			id, ok := ast.Unparen(st.X).(*ast.Ident)
-			return ok && rootParams[info.ObjectOf(id)]
-		})
+	directRoot := func(rootParams map[types.Object]bool) func(ast.Node) bool {
+		return func(nd ast.Node) bool {
+			return cfgx.Assigns(nd, func(lhs ast.Expr) bool {
+				st, ok := ast.Unparen(lhs).(*ast.StarExpr)
+				if !ok {
+					return false
+				}
+				id, ok := ast.Unparen(st.X).(*ast.Ident)
+				return ok && rootParams[info.ObjectOf(id)]
+			})
+		}
 	}
-	ast.Inspect(fd.Body, func(x ast.Node) bool {
-		switch s := x.(type) {
-		case *ast.AssignStmt:
-			for i, l := range s.Lhs {
-				if fieldSel(info, l, parent) && i < len(s.Rhs) {
-					if tv, ok := info.Types[s.Rhs[i]]; ok && tv.IsNil() {
-						continue
+	// summaries of the helpers of the family: what they do on every path (statements at
+	// the top level of the body) and what they may do (anywhere in the body)
+	type summ struct{ mustS, mayS, mustA, mayA, mustR, mayR bool }
+	sums := map[*types.Func]summ{}
+	for f := range fam {
+		if f == resolver {
+			continue
+		}
+		hd := c.P.Decl(f)
+		if hd == nil || c.P.PkgOfDecl(hd) != pk {
+			continue
+		}
+		var sm summ
+		dr := directRoot(rootParamsOf(hd))
+		sm.mayS, sm.mayA, sm.mayR = directStore(hd.Body), directAppend(hd.Body), dr(hd.Body)
+		for _, st := range hd.Body.List {
+			if _, isRet := st.(*ast.ReturnStmt); isRet {
+				break
+			}
+			switch st.(type) {
+			case *ast.IfStmt, *ast.ForStmt, *ast.RangeStmt, *ast.SwitchStmt, *ast.TypeSwitchStmt, *ast.SelectStmt, *ast.BlockStmt:
+				continue
+			}
+			sm.mustS = sm.mustS || directStore(st)
+			sm.mustA = sm.mustA || directAppend(st)
+			sm.mustR = sm.mustR || dr(st)
+		}
+		sums[f] = sm
+	}
+	viaHelper := func(nd ast.Node, pick func(summ) bool) bool {
+		hit := false
+		inspectNoLit(nd, func(x ast.Node) bool {
+			if call, ok := x.(*ast.CallExpr); ok {
+				if g := Callee(info, call); g != nil {
+					if sm, ok := sums[g]; ok && pick(sm) {
+						hit = true
 					}
-					storeRHS = append(storeRHS, s.Rhs[i])
 				}
 			}
-		case *ast.CallExpr:
-			if Callee(info, s) == appendChild {
-				if sel, ok := ast.Unparen(s.Fun).(*ast.SelectorExpr); ok {
-					appendRecv = append(appendRecv, sel.X)
+			return true
+		})
+		return hit
+	}
+	rootOfResolver := directRoot(rootParamsOf(fd))
+	mustStore := func(nd ast.Node) bool { return directStore(nd) || viaHelper(nd, func(s summ) bool { return s.mustS }) }
+	mayStore := func(nd ast.Node) bool { return directStore(nd) || viaHelper(nd, func(s summ) bool { return s.mayS }) }
+	mustAppend := func(nd ast.Node) bool { return directAppend(nd) || viaHelper(nd, func(s summ) bool { return s.mustA }) }
+	mayAppend := func(nd ast.Node) bool { return directAppend(nd) || viaHelper(nd, func(s summ) bool { return s.mayA }) }
+	mustRoot := func(nd ast.Node) bool { return rootOfResolver(nd) || viaHelper(nd, func(s summ) bool { return s.mustR }) }
+	mayRoot := func(nd ast.Node) bool { return rootOfResolver(nd) || viaHelper(nd, func(s summ) bool { return s.mayR }) }
+	// the parent that is stored is the parent that lists the child - judged in each function
+	// of the family that appends a child
+	nPair := 0
+	for f := range fam {
+		hd := c.P.Decl(f)
+		if hd == nil || c.P.PkgOfDecl(hd) != pk {
+			continue
+		}
+		hcf := c.CFG(pk, hd.Body)
+		var storeRHS, appendRecv []ast.Expr
+		ast.Inspect(hd.Body, func(x ast.Node) bool {
+			switch st := x.(type) {
+			case *ast.AssignStmt:
+				for i, l := range st.Lhs {
+					if fieldSel(info, l, parent) && i < len(st.Rhs) {
+						if tv, ok := info.Types[st.Rhs[i]]; ok && tv.IsNil() {
+							continue
+						}
+						storeRHS = append(storeRHS, st.Rhs[i])
+					}
+				}
+			case *ast.CallExpr:
+				if Callee(info, st) == appendChild {
+					if sel, ok := ast.Unparen(st.Fun).(*ast.SelectorExpr); ok {
+						appendRecv = append(appendRecv, sel.X)
+					}
 				}
 			}
-		}
-		return true
-	})
-	// the parent that is stored is the parent that lists the child
-	for i, r := range appendRecv {
-		same := false
-		for _, s := range storeRHS {
-			if cf.SameResolved(r, s) {
-				same = true
+			return true
+		})
+		for i, r := range appendRecv {
+			same := false
+			for _, st := range storeRHS {
+				if hcf.SameResolved(r, st) {
+					same = true
+				}
 			}
-		}
-		key := fmt.Sprintf("pair:%s#%d", name, i+1)
-		if same {
-			sc.Holds(key, c.P.Pos(r.Pos()), "the directive is appended to the children of the value stored in its Parent")
-		} else {
-			sc.Violation(key, c.P.Pos(r.Pos()), "a directive is appended to the children of "+types.ExprString(r)+", which is not what any Parent store in the resolver writes: Parent and Children disagree")
+			nPair++
+			key := fmt.Sprintf("pair:%s#%d", c.P.DeclName(hd), i+1)
+			if same {
+				sc.Holds(key, c.P.Pos(r.Pos()), "the directive is appended to the children of the value stored in its Parent")
+			} else {
+				sc.Violation(key, c.P.Pos(r.Pos()), "a directive is appended to the children of "+types.ExprString(r)+", which is not what any Parent store of that function writes: Parent and Children disagree")
+			}
 		}
 	}
 	nRet := 0
@@ -544,9 +711,9 @@ func RuleR4(c *Ctx) {
 		nRet++
 		must := func(p func(ast.Node) bool) bool { return cf.MustAt(ret, nil, p, nil) }
 		may := func(p func(ast.Node) bool) bool { return !cf.MustAtInit(ret, true, nil, nil, p) }
-		mustS, mayS := must(isStore), may(isStore)
-		mustA, mayA := must(isAppend), may(isAppend)
-		mustR, mayR := must(isRoot), may(isRoot)
+		mustS, mayS := must(mustStore), may(mayStore)
+		mustA, mayA := must(mustAppend), may(mayAppend)
+		mustR, mayR := must(mustRoot), may(mayRoot)
 		key := fmt.Sprintf("exit:%s#%d", name, nRet)
 		switch {
 		case mustS && mustA && !mayR:
@@ -560,6 +727,9 @@ func RuleR4(c *Ctx) {
 	})
 	if nRet == 0 {
 		sc.Violation("exit", c.P.Pos(fd.Pos()), "the resolver has no success return")
+	}
+	if nPair == 0 {
+		sc.Violation("pair", c.P.Pos(fd.Pos()), "no function of the resolver's family appends a child")
 	}
 }
 
@@ -579,7 +749,7 @@ func inspectNoLit(n ast.Node, fn func(ast.Node) bool) {
 // context restored from a value saved earlier (before the resolver moved it) points into
 // a sibling's finished subtree whenever placing the directive needed a walk upwards.
 func RuleR5(c *Ctx) {
-	sc := c.Run.Begin("R5", "outside the context resolver the current-context field is assigned only nil or a .Parent selection (the context moves outwards along Parent links; only the resolver moves it inwards)", 3)
+	sc := c.Run.Begin("R5", "outside the context resolver the current-context field is assigned only nil or a .Parent selection (the context moves outwards along Parent links; only the resolver moves it inwards)", 2)
 	defer sc.End()
 	resolver, _ := c.resolverFunc()
 	parent := c.Field("directive", "Directive", "Parent")
@@ -594,29 +764,38 @@ func RuleR5(c *Ctx) {
 	dirT := c.Named("directive", "Directive")
 	coreT := c.Named("core", "JApiCore")
 	var ctxField *types.Var
-	ast.Inspect(rfd.Body, func(n ast.Node) bool {
-		as, ok := n.(*ast.AssignStmt)
-		if !ok || len(as.Lhs) != 1 {
-			return true
+	var famBodies []ast.Node
+	for f := range c.familyOf(resolver) {
+		if d := c.P.Decl(f); d != nil {
+			famBodies = append(famBodies, d.Body)
 		}
-		if sel, ok := ast.Unparen(as.Lhs[0]).(*ast.SelectorExpr); ok {
-			if f, ok := rpk.TypesInfo.ObjectOf(sel.Sel).(*types.Var); ok && f.IsField() && coreT != nil && fieldOwner(coreT, f) {
-				if p, ok := f.Type().(*types.Pointer); ok && dirT != nil && types.Identical(p.Elem(), dirT) {
-					ctxField = f
+	}
+	for _, fb := range famBodies {
+		ast.Inspect(fb, func(n ast.Node) bool {
+			as, ok := n.(*ast.AssignStmt)
+			if !ok || len(as.Lhs) != 1 {
+				return true
+			}
+			if sel, ok := ast.Unparen(as.Lhs[0]).(*ast.SelectorExpr); ok {
+				if f, ok := rpk.TypesInfo.ObjectOf(sel.Sel).(*types.Var); ok && f.IsField() && coreT != nil && fieldOwner(coreT, f) {
+					if p, ok := f.Type().(*types.Pointer); ok && dirT != nil && types.Identical(p.Elem(), dirT) {
+						ctxField = f
+					}
 				}
 			}
-		}
-		return true
-	})
+			return true
+		})
+	}
 	if ctxField == nil {
 		sc.Undecided("anchors", c.P.Pos(rfd.Pos()), "the resolver assigns no *Directive field of JApiCore")
 		return
 	}
 	perFn := map[*ast.FuncDecl]int{}
+	r5fam := c.familyOf(resolver)
 	c.P.Funcs(func(pk *pkgT, fd *ast.FuncDecl) {
 		info := pk.TypesInfo
 		self, _ := info.Defs[fd.Name].(*types.Func)
-		if self == resolver {
+		if self == resolver || r5fam[self] {
 			return
 		}
 		cf := c.CFG(pk, fd.Body)
@@ -707,6 +886,9 @@ func RuleR2c(c *Ctx) {
 		for _, f := range reachStatic(c.P, pk, []*types.Func{resolver}) {
 			inResolver[f] = true
 		}
+		for f := range c.familyOf(resolver) {
+			inResolver[f] = true
+		}
 	}
 	for _, f := range reachStatic(c.P, pk, handlers["ContextExplicitClosing"]) {
 		fd := c.P.Decl(f)
@@ -789,7 +971,7 @@ func RuleR2c(c *Ctx) {
 // directive's Parent, its position, its parameters - prunes subtrees by where they sit, so
 // a Path under a method inside a URL block is never collected.
 func RuleTW1(c *Ctx) {
-	sc := c.Run.Begin("TW1", "every recursive descent into Directive.Children is guarded only by tests of the children themselves, of the directive's kind, and by error checks", 3)
+	sc := c.Run.Begin("TW1", "every recursive descent into Directive.Children is guarded only by tests of the children themselves, of the directive's kind, and by error checks", 2)
 	defer sc.End()
 	children := c.Field("directive", "Directive", "Children")
 	enumT := c.Named("directive", "Enumeration")
